@@ -103,8 +103,12 @@ func (m *C16) OnBlock(e *Env, blk *world.BlockRecord) {
 						inactive = p
 					}
 				}
-				e.Fail("C16", "withdrawal_rejected_without_active_lock", j.Meta.Kind, "%s by %s rejected as locked: total power %s -> %s, largest active lock %s (largest lock in a deactivated vault %s)",
-					j.Meta.Kind, j.Meta.Addr.Name, j.PowerPre, j.PowerPost, j.MaxLock, inactive)
+				chain := ""
+				for _, l := range e.App().RestakeKeeper.GetLocksByAddress(e.Ctx(), j.Meta.Addr.Addr) {
+					chain += fmt.Sprintf(" %s=%s(active=%v)", l.Key, l.Power, e.App().RestakeKeeper.IsActiveVault(e.Ctx(), l.Key))
+				}
+				e.Fail("C16", "withdrawal_rejected_without_active_lock", j.Meta.Kind, "%s by %s rejected as locked: total power %s -> %s, largest active lock %s (largest lock in a deactivated vault %s); chain locks after the block:%s",
+					j.Meta.Kind, j.Meta.Addr.Name, j.PowerPre, j.PowerPost, j.MaxLock, inactive, chain)
 				return
 			}
 			if isRestakeLockError(j.Tx) && j.PowerPost.Equal(j.MaxLock.SubRaw(1)) {
